@@ -171,16 +171,20 @@ class Check:
         return r
 
     # -------------------------------------------------------------- harness
-    def harness(self, args, timeout=3600, binary=None, check=True, envadd=None):
+    def harness(self, args, timeout=None, binary=None, check=True, envadd=None):
         e = env()
         e["VERIF_SEED"] = str(self.seed)
         e.update(envadd or {})
-        p = subprocess.run([binary or HARNESS] + args, cwd=self.work, env=e, capture_output=True, text=True, timeout=timeout)
+        timeout = timeout or (900 if self.tier == "quick" else 7200)
+        try:
+            p = subprocess.run([binary or HARNESS] + args, cwd=self.work, env=e, capture_output=True, text=True, timeout=timeout)
+        except subprocess.TimeoutExpired:
+            raise Infra(f"harness {' '.join(args)} did not finish within {timeout}s")
         if check and p.returncode != 0:
             raise Infra(f"harness {' '.join(args)} failed rc={p.returncode}:\n{p.stdout[-2000:]}\n{p.stderr[-4000:]}")
         return p
 
-    def shards(self, cmd, infile, outprefix, extra=None, nshards=None, timeout=3600):
+    def shards(self, cmd, infile, outprefix, extra=None, nshards=None, timeout=None):
         """Run `harness <cmd> -in infile -out <outprefix>.<i> -shard i -nshards n` in parallel; returns (outfiles, stats)."""
         n = nshards or NCPU
         outs = [f"{outprefix}.{i}" for i in range(n)]
